@@ -17,6 +17,10 @@ WTARGET = os.path.join(R.CACHE, 'witness-target' + _sfx)
 
 # (unit regex, fn regex) -> witness cases to try, in order
 CASES = [
+    (r'k\.atomic', r'.*', ['atomic']),
+    (r'k\.bfv_unaligned', r'.*', ['bfv_unaligned']),
+    (r'k\.bfv_apply', r'.*', ['bfv_apply']),
+    (r'k\.rank_small.*', r'.*', ['rank_all']),
     (r'(k\.)?rcl.*', r'.*', ['rcl']),
     (r'ef\.builder', r'(push|push_unchecked|build)', ['ef_builder', 'ef_seq']),
     (r'ef\.builder', r'.*', ['ef_seq', 'ef_builder']),
